@@ -36,6 +36,16 @@ CurByte == Byte \cup {NoCur}
 
 Convertible(from, to) == from = to \/ (from = "mut" /\ to = "const")
 
+\* The byte type may carry any cv-qualification (volatile bytes: memory shared
+\* with a device or another process).  For the type-level part of the table
+\* (conversions, element types) the whole lattice is used: a byte type is
+\* read-only iff it is const-qualified, volatile or not, and a conversion may
+\* only add qualifiers.
+CvByte == {"mut", "const", "vol", "cvol"}
+Quals(b) == CASE b = "mut" -> {} [] b = "const" -> {"c"} [] b = "vol" -> {"v"} [] OTHER -> {"c", "v"}
+IsConstByte(b) == "c" \in Quals(b)
+ConvertibleCv(from, to) == Quals(from) \subseteq Quals(to)
+
 -----------------------------------------------------------------------------
 (* Operation kinds.  Names are shared with tools/capsgen.py, which knows    *)
 (* for each the C++ expression that performs it (by name), nothing else.    *)
@@ -174,11 +184,11 @@ Row(r) == [kind |-> "perm", op |-> r.op, path |-> PathStr(r.path), recv |-> r.pa
 
 \* conversions: views of every kind, array references and cursors
 ConvKinds == {"message", "entry", "composite", "group", "data", "array", "cursor"}
-ConvRow(k, f, t) == [kind |-> "conv", what |-> k, from |-> f, to |-> t, allowed |-> Convertible(f, t)]
+ConvRow(k, f, t) == [kind |-> "conv", what |-> k, from |-> f, to |-> t, allowed |-> ConvertibleCv(f, t)]
 
 \* element access types: what data()/begin()/operator[] hand out is const
 \* exactly for a const byte type
-ElemRow(k, b) == [kind |-> "elem", what |-> k, byte |-> b, elemConst |-> b = "const"]
+ElemRow(k, b) == [kind |-> "elem", what |-> k, byte |-> b, elemConst |-> IsConstByte(b)]
 
 \* cursor / view factories: byte type of the result
 InitRow(f, b) == [kind |-> "init", what |-> f, byte |-> b,
@@ -187,8 +197,8 @@ InitRow(f, b) == [kind |-> "init", what |-> f, byte |-> b,
 EmitTable ==
   /\ \A f \in {"init_cursor", "init_const_cursor", "make_view", "make_const_view"} : \A b \in Byte : PrintT(ToJson(InitRow(f, b)))
   /\ \A r \in Rows : PrintT(ToJson(Row(r)))
-  /\ \A k \in ConvKinds : \A f \in Byte : \A t \in Byte : PrintT(ToJson(ConvRow(k, f, t)))
-  /\ \A k \in {"data", "array"} : \A b \in Byte : PrintT(ToJson(ElemRow(k, b)))
+  /\ \A k \in ConvKinds : \A f \in CvByte : \A t \in CvByte : PrintT(ToJson(ConvRow(k, f, t)))
+  /\ \A k \in {"data", "array"} : \A b \in CvByte : PrintT(ToJson(ElemRow(k, b)))
 
 -----------------------------------------------------------------------------
 (* Table laws (checked as invariants on the initial state).                 *)
@@ -212,6 +222,9 @@ TableLaws ==
   /\ \A a \in Byte : \A b \in Byte : (Convertible(a, b) /\ Convertible(b, a)) => a = b
   /\ \A a \in Byte : \A b \in Byte : \A d \in Byte : (Convertible(a, b) /\ Convertible(b, d)) => Convertible(a, d)
   /\ ~Convertible("const", "mut")
+  \* 7. the cv lattice extends the two-point order; const is never dropped, whatever else is added
+  /\ \A a \in Byte : \A b \in Byte : ConvertibleCv(a, b) = Convertible(a, b)
+  /\ \A a \in CvByte : \A b \in CvByte : (ConvertibleCv(a, b) /\ IsConstByte(a)) => IsConstByte(b)
 
 -----------------------------------------------------------------------------
 (* The handle machine.  One buffer; `origin` is the byte type under which   *)
